@@ -80,7 +80,14 @@ template <int F> void flavour_case(Rng& rng, std::uint64_t idx)
         std::vector<std::size_t> rest(calls.begin() + k, calls.end());
         chk_t resumed = Fl::run(cfg, c, rest, GoOnSerial());
         count("resumes_after_rollback");
-        if (text_of(resumed) != full_text) viol(std::string("resume-after-rollback-does-not-reproduce-the-original-run:") + Fl::name() + ":" + kind, inf);
+        if (text_of(resumed) != full_text) { viol(std::string("resume-after-rollback-does-not-reproduce-the-original-run:") + Fl::name() + ":" + kind, inf); continue; }
+        // longer histories: the resumed checkpoint (which has been reloaded and continued) is rolled back again
+        std::size_t k2 = rng.below(3) == 0 ? 0 : rng.below(m + 1);
+        resumed.rollback(k2);
+        count("second_rollbacks_after_resume");
+        if (text_of(resumed) != ref_text[k2])
+            viol(std::string("second-rollback-after-resume-differs-from-run-of-k-iterations:") + Fl::name() + ":" + (reload_before || reload_after ? "reloaded" : "in-memory") + (k2 == 0 ? ":k2=0" : ":k2>0"),
+                J(inf).u("k2", k2));
         if (k < m || reload_before) nontrivial(mix(hash_str(inf.str()), F));
     }
     sample(info, 5);
